@@ -58,6 +58,13 @@ def run(P, rep, tier):
     rep.floor("C10.R2", 5)
     rep.floor("C10.R3", 3)
     rep.floor("C10.R5", 8)
+    # refinement against the pinned tree for every function the rules above looked at (rules/pinned.py)
+    import os as _os
+
+    if not _os.environ.get("MDSA_PINNED_GEN"):
+        from .pinned import refine
+
+        refine(P, rep, ctx, "C10")
 
 
 def _cond_literal_edges(f, literals):
